@@ -5,7 +5,7 @@ a real `Dictionary` getter on the real class-level cache and records what came b
 equals, or KeyError) and the key order of the cache; the driver's `dcache` op answers the same for the model."""
 import json
 
-LOCS = ["en", "fr", "ru", "fi"]
+LOCS = ["en", "fr", "ru", "fi", "fr-CA", "en-AU", "pt-PT"]      # regional locales have entries of their own (the key is the locale name)
 GETTERS = [("_get_sorted_words_from_cache", "_sorted_words_cache"), ("_get_match_relative_regex_cache", "_match_relative_regex_cache"),
            ("_get_split_regex_cache", "_split_regex_cache")]
 
